@@ -162,6 +162,10 @@ func cmdCheck(prop, tier string) int {
 				machinery = append(machinery, fmt.Sprintf("solver error on %s: %s", sm.Name, firstLines(sm.Worst.Res.Raw, 3)))
 				continue
 			}
+			if sm.Kind == "unmodelled" {
+				machinery = append(machinery, fmt.Sprintf("%s: %s (reachable: the function is outside the modelled subset)", sm.Name, sm.Desc))
+				continue
+			}
 			// known finding?
 			matched := false
 			for _, k := range known.Findings {
